@@ -139,8 +139,10 @@ def _active(path):
 
 class WriteProxy:
     """Wraps a real file object opened for writing; every write and the close are operations.
-    Data is flushed to the kernel after every write so that the sandbox always shows what a kill
-    at this instant would leave (plus: a partial write leaves exactly the prefix that was asked)."""
+    Python's own buffering is left alone: data reaches the kernel when the real buffer fills, on
+    flush and on close, exactly as in an unsimulated run - so the sandbox always shows what a kill
+    at this instant would really leave (buffered bytes die with the process).  Only an injected
+    partial write forces its prefix out before failing."""
 
     def __init__(self, ctx, f, path):
         self.__dict__["_c"] = ctx
@@ -166,12 +168,24 @@ class WriteProxy:
         try:
             with c.real():
                 r = f.write(data)
-                f.flush()
         except BaseException as e:
             c.after("write", p, e)
             raise
         c.after("write", p)
         return r
+
+    def flush(self):
+        c, f, p = self._c, self._f, self._p
+        if c.depth or f.closed:
+            return f.flush()
+        c.before("flush", p)
+        try:
+            with c.real():
+                f.flush()
+        except BaseException as e:
+            c.after("flush", p, e)
+            raise
+        c.after("flush", p)
 
     def writelines(self, lines):
         for s in lines:
